@@ -126,8 +126,12 @@ class StreamFlowExecutor(Executor):
                     if not step.terminated
                 )
             )
-            # Cancel the step tasks that are still pending
-            pending = [t for t in self.executions if not t.done()]
+            # Cancel the step tasks that are still pending (close() may itself be
+            # running inside one of them, when a step raised: never cancel that one)
+            current = asyncio.current_task()
+            pending = [
+                t for t in self.executions if not t.done() and t is not current
+            ]
             for task in pending:
                 task.cancel()
             await asyncio.gather(*pending, return_exceptions=True)
